@@ -46,6 +46,14 @@
 (*   mkl    S c1 c2             v := S{f1: c1, f2: c2}  a composite literal   *)
 (*                              of constants, of the type of struct S         *)
 (*   mklf   S c1 c2 k           t := S{f1: c1, f2: c2}; v := t.fk             *)
+(*   tuple assignments (right-hand sides are evaluated before any store):    *)
+(*   vswap  x y -> (v, v+1)     v, w := x, y; v, w = w, v                     *)
+(*   fswap  S k                 t := S; t.f1, t.f2 = t.f2, t.f1; v := t.fk    *)
+(*   fcall  S x y k             t := S; t.f1, t.f2 = addsub(x, y); v := t.fk  *)
+(*   aswap  A (9i+3j+r)         t := A; t[i], t[j] = t[j], t[i]; v := t[r]    *)
+(*   acall  A x y (9i+3j+r)     t := A; t[i], t[j] = addsub(x, y); v := t[r]  *)
+(*   (the statement defines the element / field read back, so that what the   *)
+(*    tuple assignment stored is always observed)                             *)
 (* Values are [t, v]: a type and the unsigned representation of the value. *)
 (* Semantics: wrap-around modulo 2^N, two's complement, truncating signed  *)
 (* division, signed modulo = |a| mod |b| (as the shipped @Test vectors fix  *)
@@ -166,7 +174,8 @@ TypesOf(p, n) ==   \* sequence of the types of variables 1..2+n
                     [] s.k = "mat" -> <<MatT(ts[s.x])>>
                     [] s.k = "midx" -> <<ts[s.x][2]>>
                     [] s.k = "mset" -> <<ts[s.x]>>
-                    [] s.k = "call" -> <<ts[s.x], ts[s.x]>>
+                    [] s.k \in {"call", "vswap"} -> <<ts[s.x], ts[s.x]>>
+                    [] s.k \in {"fswap", "fcall", "aswap", "acall"} -> <<ts[s.x][2]>>
                     [] s.k = "mk" -> <<StructT(ts[s.x], ts[s.y])>>
                     [] s.k = "fld" -> <<ts[s.x][s.c + 1]>>
                     [] s.k = "mklf" -> <<ts[s.x][s.y + 1]>>
@@ -250,6 +259,16 @@ AddStmt ==
           \/ "mat" \in Kinds /\ \E m \in mats : \E ij \in 0..3 : \E x \in {v \in ints : ts[v] = ts[m][2]} :
                 add(S("mset", m, x, 0, "", <<>>, ij))
           \/ "call" \in Kinds /\ \E x \in ints : \E y \in {v \in ints : ts[v] = ts[x]} : add(S("call", x, y, 0, "", <<>>, 0))
+          \/ "tuple" \in Kinds /\ \E x \in ints : \E y \in {v \in ints : ts[v] = ts[x] /\ v # x} : add(S("vswap", x, y, 0, "", <<>>, 0))
+          \/ "tuple" \in Kinds /\ \E s \in {v \in structs : ts[v][2] = ts[v][3] /\ IsInt(ts[v][2])} : \E k \in 1..2 :
+                add(S("fswap", s, 0, 0, "", <<>>, k))
+          \/ "tuple" \in Kinds /\ \E s \in {v \in structs : ts[v][2] = ts[v][3] /\ IsInt(ts[v][2])} : \E x \in {v \in ints : ts[v] = ts[s][2]} :
+                \E y \in {v \in ints : ts[v] = ts[s][2]} : \E k \in 1..2 : add(S("fcall", s, x, y, "", <<>>, k))
+          \/ "tuple" \in Kinds /\ \E a \in {v \in arrs : IsInt(ts[v][2])} : \E ij \in {<<0, 1>>, <<2, 0>>, <<1, 2>>} : \E r \in 0..2 :
+                add(S("aswap", a, 0, 0, "", <<>>, 9 * ij[1] + 3 * ij[2] + r))
+          \/ "tuple" \in Kinds /\ \E a \in {v \in arrs : IsInt(ts[v][2])} : \E x \in {v \in ints : ts[v] = ts[a][2]} :
+                \E y \in {v \in ints : ts[v] = ts[a][2]} : \E ij \in {<<0, 2>>, <<2, 1>>} : \E r \in 0..2 :
+                add(S("acall", a, x, y, "", <<>>, 9 * ij[1] + 3 * ij[2] + r))
           \/ "struct" \in Kinds /\ \E x \in ints : \E y \in ints : add(S("mk", x, y, 0, "", <<>>, 0))
           \/ "struct" \in Kinds /\ \E s \in structs : \E k \in 1..2 : add(S("fld", s, 0, 0, "", <<>>, k))
           \/ "struct" \in Kinds /\ \E s \in structs : \E k \in 1..2 : \E x \in {v \in ints : ts[v] = ts[s][k + 1]} :
@@ -334,6 +353,15 @@ Exec(p, i, env) ==
                   [] s.k = "midx" -> <<x.v[(s.c \div 2) + 1][(s.c % 2) + 1]>>
                   [] s.k = "mset" -> <<[x EXCEPT !.v[(s.c \div 2) + 1][(s.c % 2) + 1] = y]>>
                   [] s.k = "call" -> <<Bin("+", x, y), Bin("-", x, y)>>
+                  [] s.k = "vswap" -> <<y, x>>
+                  [] s.k = "fswap" -> <<x.v[3 - s.c]>>
+                  [] s.k = "fcall" -> <<IF s.c = 1 THEN Bin("+", y, env[s.z]) ELSE Bin("-", y, env[s.z])>>
+                  [] s.k = "aswap" -> LET ei == s.c \div 9  ej == (s.c \div 3) % 3  er == s.c % 3
+                                          tt == [x EXCEPT !.v[ei + 1] = x.v[ej + 1], !.v[ej + 1] = x.v[ei + 1]]
+                                      IN <<tt.v[er + 1]>>
+                  [] s.k = "acall" -> LET ei == s.c \div 9  ej == (s.c \div 3) % 3  er == s.c % 3
+                                          tt == [x EXCEPT !.v[ei + 1] = Bin("+", y, env[s.z]), !.v[ej + 1] = Bin("-", y, env[s.z])]
+                                      IN <<tt.v[er + 1]>>
                   [] s.k = "mk" -> <<[t |-> StructT(x.t, y.t), v |-> <<x, y>>]>>
                   [] s.k = "fld" -> <<x.v[s.c]>>
                   [] s.k = "fset" -> <<[x EXCEPT !.v[s.c] = y]>>
